@@ -196,6 +196,8 @@ def main():
             else:
                 inconclusive.append((j.name, "counterexample for '%s' did not reproduce natively: %s" % (d0, rep)))
 
+        for note in plan.get("inconclusive_notes", []):
+            inconclusive.append(("_plan", note))
         for n, why in inconclusive:
             log("INCONCLUSIVE %s: %s" % (n, why))
         for v in vio_lines:
